@@ -340,7 +340,11 @@ class FnView:
                 return T(n["expr"])
             return ("unit",)
         if k == "if":
-            return ("if", T(n["cond"]), T(n["then"]), T(n.get("else")))
+            c_, a_, b_ = T(n["cond"]), T(n["then"]), T(n.get("else"))
+            if c_[0] == "iflet" and c_[1][0] == "ptstruct" and c_[1][1].endswith("::Some") and n.get("else") is not None \
+                    and a_ == ("variant", "Some", 0, c_[2]) and not contains(b_, lambda s_: s_[0] in ("ret", "break", "continue")):
+                return ("call", "std::option::Option::unwrap_or", c_[2], b_)     # value selection == unwrap_or
+            return ("if", c_, a_, b_)
         if k == "letexpr":
             return ("iflet", pat_term(n["pat"]), T(n["init"]))
         if k == "match":
